@@ -24,6 +24,11 @@ from dataclasses import dataclass, field
 from typing import Any, Callable, Iterable, Sequence
 
 
+class HarnessAbort(Exception):
+    """Raised by a condition when an assumption of the harness itself (not the property) fails:
+    reported as HARNESS-ERROR (exit 3), never as a violation."""
+
+
 @dataclass
 class Cond:
     fn: Callable[..., Any]
